@@ -44,6 +44,10 @@ def facts_path(cfg):
     th = tree_hash()
     out = os.path.join(WORK, 'facts-%s-%s.json' % (cfg, th))
     if os.path.exists(out) and os.path.getsize(out) > 0:
+        try:
+            os.utime(out)
+        except OSError:
+            pass
         return out
     lock = open(os.path.join(WORK, 'lock-%s' % cfg), 'w')
     fcntl.flock(lock, fcntl.LOCK_EX)
@@ -54,6 +58,9 @@ def facts_path(cfg):
         for f in os.listdir(WORK):
             if f.startswith('facts-%s-' % cfg) and f.endswith('.json'):
                 try:
+                    # (not the ones in use: checks of another tree - a scratch copy - may be running at the same time)
+                    if time.time() - os.path.getmtime(os.path.join(WORK, f)) < 1800:
+                        continue
                     os.remove(os.path.join(WORK, f))
                 except OSError:
                     pass
@@ -112,6 +119,19 @@ class Ctx:
         if cfg not in self._gam:
             self._gam[cfg] = GateAnalysis(Engine(self.prog(cfg), modular=True))
         return self._gam[cfg]
+
+
+def _gates_sites(self, sites, cfg='prod-all'):
+    """gate analysis over a dependence engine in which the results of the named decoding calls carry their call site as an atom"""
+    if not hasattr(self, '_gas'):
+        self._gas = {}
+    key = (cfg, tuple(sites))
+    if key not in self._gas:
+        self._gas[key] = GateAnalysis(Engine(self.prog(cfg), sites=sites))
+    return self._gas[key]
+
+
+Ctx.gates_sites = _gates_sites
 
 
 class Ob:
